@@ -109,6 +109,10 @@ func (c *RefreshTokenGrantHandler) HandleTokenEndpointRequest(ctx context.Contex
 	rtLifespan := fosite.GetEffectiveLifespan(request.GetClient(), fosite.GrantTypeRefreshToken, fosite.RefreshToken, c.Config.GetRefreshTokenLifespan(ctx))
 	if rtLifespan > -1 {
 		request.GetSession().SetExpiresAt(fosite.RefreshToken, time.Now().UTC().Add(rtLifespan).Round(time.Second))
+	} else {
+		// Unlimited lifetime: the session is a clone of the refreshed token's session, so the
+		// expiry of that token must not be inherited by the new refresh token.
+		request.GetSession().SetExpiresAt(fosite.RefreshToken, time.Time{})
 	}
 
 	return nil
